@@ -3,7 +3,7 @@ from . import common as C
 
 PID = "C13"
 PROPS_V = "theories/Props/Properties_C13.v"
-MODEL_NAME = "ServerFn/ErrorCodec.v, ServerFn/Protocol.v"
+MODEL_NAME = "ServerFn/ErrorCodec.v, ServerFn/Protocol.v, ServerFn/Websocket.v"
 HARNESS = "serverfn"
 HARNESS_ARGS = ["c13"]
 ALLOWED_AXIOMS = []
@@ -20,10 +20,10 @@ RULE = ("cases drawn from one PRNG (VERIF_SEED). COMPARED line by line with the 
         "invalid bodies) incl. redirect-hook calls; op8 the real run_on_server (form-redirects on) on raw requests "
         "(Accept html or not, Referer absolute URL / relative / absent / non-UTF-8); op9 run_on_client through the loopback "
         "vs the body called directly. ORACLE-ONLY (serde codecs are assumed, exercised differentially, never modelled): op10 "
-        "remote vs direct for 30 #[server] functions = every input encoding x Json, Json x every output encoding, mixed "
+        "remote vs direct for 39 #[server] functions = every input encoding x Json, Json x every output encoding, mixed "
         "pairs, over nested structs/options/vectors/strings/numbers at range limits and Err results of every variant; op18 "
         "#[server] functions with Option arguments in first/middle/last position (None, Some(\"\"), Some(vec![]) often) for each of "
-        "the 19 input encodings; every request and response body is delivered as a Bytes::slice view behind a 0..9-byte frame "
+        "the 23 input encodings; every request and response body is delivered as a Bytes::slice view behind a 0..9-byte frame "
         "header inside a larger buffer (case-chosen), as framed transports do; "
         "op11 the same calls under truncate/flip/splice/replace of request or response bytes and status overrides "
         "(must be a value, never a panic); op12 multipart requests with good/missing/malformed boundary and damaged bodies; "
@@ -31,13 +31,34 @@ RULE = ("cases drawn from one PRNG (VERIF_SEED). COMPARED line by line with the 
         "characters across power-of-two offsets, the transport re-cutting request and response bodies at 1/7/16/8192/whole; op21 "
         "custom FromServerFnError types with Json/Cbor/MsgPack/Postcard encoders (messages >= 128 bytes, integers >= 128); op19 "
         "histories: several calls on one thread, including calls that cannot be encoded/decoded on purpose (op20), each call "
-        "checked against its direct call. A case is non-trivial when its payload is non-empty; distinct = distinct case hash.")
+        "checked against its direct call. COVERAGE AUDIT (coverage/C13.md): COMPARED op22 fn0 the websocket protocol (Websocket::run_client / "
+        "run_server through a loopback duplex on a harness-owned executor; text items and error items both ways, frames replaced "
+        "in flight, five schedules of caller / forwarder / handler / pump, early drop), op23/24 ServerFnErrorWrapper Display+FromStr for "
+        "ServerFnError<NoCustomError|Code> and of mutated strings, op25 FormatType of all seven encodings (text and binary), op32 the "
+        "glue function on the real axum backend (server_fn::axum::handle_server_fn; request bodies as hyper-like frame streams); "
+        "ORACLE-ONLY op22 fn1-12 websocket functions declared with #[server(protocol = Websocket<..>)] for every item encoding, custom "
+        "stream error types with binary encoders, items JSON cannot carry, a body that awaits its first item, fn13 no upgrade; op23/24/26 "
+        "string and URL forms of six custom error types (Json/Cbor/MsgPack/Postcard/Rkyv/SerdeLite encoders), relative bases; op10/18 "
+        "now also the Patch/Put wrappers of Cbor/MsgPack/Postcard/Rkyv/SerdeLite as input and output; op21 Rkyv- and SerdeLite-encoded "
+        "errors; op20 an error its own encoder cannot encode; op11 send / body-read failures; op27 a value with enums of all four "
+        "variant kinds, tuples, maps, char, u128/i128, f32, unit, arrays, Result; op28 strings / vectors / byte vectors at 2^k+-1 sizes "
+        "(15..65537) through 13 encodings; op29 dispatch through ServerFnTraitObj::boxed + middleware layers (pass and refuse); op30 17 "
+        "functions using the other options of #[server] (defaults, name/prefix/endpoint, legacy positional arguments and encoding "
+        "strings, protocol =, custom =, impl_from/impl_deref, input_derive, default/rename/flatten/skip argument attributes, aliased "
+        "Result, an encoding written after the documentation's example); op31 functions on the axum backend (Json, Rkyv, GetUrl->Cbor, "
+        "text and byte streams, multipart, tower middleware, form redirect carrying a Cbor-encoded error, registry); op33 ByteStream::new "
+        "with error items; op34 TextStream<custom error>; op35 errors built by `?` / ServerFnError::new / server_fn_error!. "
+        "A case is non-trivial when its payload is non-empty; distinct = distinct case hash.")
 TRUSTED = [
     "Coq 8.16.1 kernel (coqc; coqchk on the thorough tier); no axioms: all theorems of Properties_C13.v are 'Closed under the global context'",
     "extraction to OCaml with ExtrOcamlBasic only, ocamlfind ocamlopt 4.13.1, extract/driver.ml sexp I/O",
     "harness/serverfn (Rust): a loopback Client/ClientReq/ClientRes written for the harness, a Server on /repo's generic Request<Bytes>/Response<Body> "
     "(newtype delegating every Req method to /repo's impl, because /repo's two generic types cannot be paired directly), "
-    "handler lookup through the inventory registry the #[server] macro fills, futures::executor::block_on",
+    "handler lookup through the inventory registry the #[server] macro fills, dispatch as get_server_fn_service does (boxed service + "
+    "the function's middleware layers), futures::executor::block_on; for websockets a harness-owned deterministic executor "
+    "(round-robin polling in a case-chosen rotation), unbounded channels as the duplex, the loopback's own try_into_websocket "
+    "(/repo's generic request never upgrades) and its rule that a failed handshake's body reaches the client as one error frame; "
+    "for the axum backend a loopback Client calling server_fn::axum::handle_server_fn with in-memory axum bodies (no hyper, no sockets)",
     "ASSUMED, not modelled: the serde codecs (serde_json, serde_qs, ciborium, rmp-serde, postcard, rkyv, serde-lite) and multer; in Coq they are "
     "Section variables with the hypothesis codecs_ok (decode inverts encode on the values involved); their round trips are only "
     "exercised differentially (ops 10-15) with an oracle, and the check found that assumption false for serde_qs (F-C13-e, open) "
@@ -49,6 +70,10 @@ TRUSTED = [
     "u8::from_str, usize/u8 Display, http::HeaderValue validity",
     "Protocol.v models Http<In,Out> over body codecs (Post/Patch/Put<Encoding>, the url codecs); streaming and multipart bodies are "
     "covered by the oracle only, except the multipart boundary lookup (its panic branch, now an Args error, is in the model)",
+    "Websocket.v models the websocket framing item by item (send_item / recv_item, frames replaced in flight) with the body as a "
+    "function on item lists: interleaving is not modelled (schedules are only exercised), the item codecs are parameters",
+    "compared, not proved: nothing new; oracle only (not modelled): custom error types, value classes, sizes, middleware order, macro "
+    "options, axum backend internals (hyper body collection), stream error items",
     "the Content-Type/Accept headers a client sends are swapped by every codec's into_req (argument order); they are not part of "
     "the property and only Accept is modelled (as the input content type, which is what the code sends)",
 ]
@@ -59,6 +84,12 @@ ASSUMPTIONS = [
     "the transport delivers the bytes it was given (loopback); HTTP re-chunking of streamed bodies is not modelled",
     "a client request never carries 'Accept: text/html' (only a browser form post does)",
     "f64 NaN/infinity are outside the generated domain (JSON cannot carry them)",
+    "op27 stays inside what serde's data model round-trips in every format (no Option<Option<_>>, Option<()>, non-string map keys, "
+    "NaN); the URL codecs are not given that value; op28/op31 give the URL codecs only values outside the known class F-C13-e",
+    "websocket: a server function body that fails before returning its stream is only required to produce a value on the client "
+    "(real websocket clients see a failed handshake, not the body's error); items at indices whose frames were replaced are "
+    "only required to be items (an error frame must arrive as an error item)",
+    "a text-format encoder's output is valid UTF-8 (FormatType::into_encoded_string's documented precondition)",
 ]
 LEVEL_TEXT = ("Coq proofs, for every error variant / message / custom error type, every byte string, every base URL and every "
               "status code, that an error survives the 'Kind|message' wire format and the base64-in-URL form, that the decoders "
@@ -67,11 +98,14 @@ LEVEL_TEXT = ("Coq proofs, for every error variant / message / custom error type
               "lib.rs and the generic request/response code; tied to /repo by running the extracted model and the real code "
               "(through the public API and the real #[server] macro, loopback transport) on the same thousands of generated "
               "cases every run, plus an independent Python oracle (remote == direct; decoded == original; corrupted => value, "
-              "not panic) over all codec pairs.")
+              "not panic) over all codec pairs. Also proved: the websocket framing preserves every item and error item in both "
+              "directions for all item codecs that invert (and turns undecodable / unencodable items into the right error values), "
+              "and an error survives the string form of ServerFnErrorWrapper for text and binary encoders.")
 LEVEL_NOTE = ("Trusted: Coq kernel, ExtrOcamlBasic extraction + OCaml driver, the Rust harness incl. its loopback transport. Assumed "
               "(differentially exercised only): every serde codec and multer. Modelled not verified: base64, form_urlencoded, "
               "str Debug (restricted tables), Utf8Error Display. No axioms. One open finding (serde_qs cannot carry empty "
-              "vectors / empty optional strings), four repaired ones.")
+              "vectors / empty optional strings), four repaired ones. Anchor coverage audit: coverage/C13.md (which entry points are "
+              "driven, judged, modelled; what stays open and why).")
 TECHNIQUE = "Coq proof (induction over byte strings, base64 quads, query pairs) + differential correspondence of the extracted model with the Rust code + oracle over all codec pairs"
 
 KINDS = ["WrappedServerError", "Registration", "Request", "Response", "ServerError", "MiddlewareError",
@@ -440,8 +474,8 @@ def gen_typed(rng):
         return dict(case=[11, rng.randrange(len(PAIRS)), gen_val(rng), gen_plan(rng), where, arg, gen_frame(rng)],
                     kind="typed-corrupted", compare=False)
     if r < 0.63:
-        ct = rng.choice(MP_CTS)
-        if rng.random() < 0.2:
+        ct = MP_CTS[0] if rng.random() < 0.35 else rng.choice(MP_CTS)
+        if rng.random() < 0.15:
             ct = bytes(b for b in (rng.randint(32, 126) for _ in range(rng.randint(0, 30))))
         body = MP_OK_BODY
         rr = rng.random()
@@ -506,7 +540,8 @@ def gen_stream(rng):
     r = rng.random()
     nch = rng.choice([0, 1, 1, 2, 3, 5])
     if r < 0.3:
-        return dict(case=[13, [gen_text_chunk(rng) for _ in range(nch)], rc], kind="text-stream-echo", compare=False)
+        return dict(case=[13, [gen_text_chunk(rng) for _ in range(nch)], rc, rng.choice([0, 0, 1, 2])], kind="text-stream-echo",
+                    compare=False)
     if r < 0.5:
         return dict(case=[14, [gen_byte_chunk(rng) for _ in range(nch)], rc], kind="byte-stream-out", compare=False)
     if r < 0.65:
@@ -740,14 +775,16 @@ def oracle_ws(case, impl):
     r, d = remote[1], direct[1]
     if len(r) != len(d):
         return "the remote stream has %d items, the direct one %d" % (len(r), len(d))
-    touched = {i for (dr, i, fr) in faults}
-    errframe = {i for (dr, i, fr) in faults if fr[0] == 1}
+    down = {i: fr for (dr, i, fr) in faults if dr == 1}
+    up = {i: fr for (dr, i, fr) in faults if dr == 0}
     for i, (x, y) in enumerate(zip(r, d)):
         if not (isinstance(x, list) and len(x) == 2 and x[0] in (0, 1)):
             return "item %d of the remote stream is not an item" % i
-        if i in touched:
-            if i in errframe and x[0] != 1 and any(dr == 1 and k == i for (dr, k, fr) in faults):
-                return "an error frame sent to the client did not arrive as an error item"
+        if i in down or i in up:
+            # a replaced frame: whatever it carries must arrive as an item; an error frame as an error item
+            fr = down[i] if i in down else up[i]
+            if fr[0] == 1 and x[0] != 1:
+                return "an error frame did not arrive as an error item"
             continue
         if fn == 12 and (case[2][i][2] or bytes(case[2][i][1]).startswith(b"p")):
             # an item JSON cannot carry: must arrive as an error item, not vanish
@@ -994,7 +1031,13 @@ def gen_val_url_ok(rng):
 
 
 def gen_axum(rng):
-    w = rng.choice([0, 0, 1, 1, 2, 3, 3, 4, 5, 6, 7, 8, 8, 8])
+    w = rng.choice([0, 0, 1, 1, 2, 3, 3, 4, 5, 6, 7, 8, 8, 8, 9, 9])
+    if w == 9:
+        s = rng.choice(["!" + gen_str(rng, 5), "!", gen_str(rng, 6)])
+        if "deny" in s:
+            s = "x"
+        pre, q, f = gen_base(rng)
+        return dict(case=[31, 8, C.norm(s), rng.getrandbits(32), pre, q, f], kind="axum-form-redirect-custom-error", compare=False)
     rc = [rng.choice(RECHUNK_SIZES), rng.choice(RECHUNK_SIZES)]
     if w <= 2:
         v = gen_val_url_ok(rng) if w == 2 else gen_val(rng)
@@ -1009,7 +1052,7 @@ def gen_axum(rng):
         return dict(case=[31, 5, [gen_byte_chunk(rng) for _ in range(rng.choice([0, 1, 2, 3]))], rc], kind="axum-byte-stream",
                     compare=False)
     if w == 6:
-        ct = rng.choice(MP_CTS)
+        ct = MP_CTS[0] if rng.random() < 0.35 else rng.choice(MP_CTS)
         body = MP_OK_BODY
         rr = rng.random()
         if rr < 0.3:
@@ -1093,14 +1136,7 @@ def oracle_audit(case, impl):
             want = [0, list(s), (n + 1) % 2 ** 32]
         if direct != want:
             return "harness: direct call differs from the reference body"
-        p = bytes(path).decode()
-        if path != url:
-            return "ServerFn::url() differs from PATH"
-        if fn in OPT_PATHS:
-            if p != OPT_PATHS[fn]:
-                return "PATH is not prefix + endpoint"
-        elif not re.fullmatch(re.escape(OPT_PREFIX.get(fn, "/api/") + OPT_NAMES[fn]) + r"\d+", p):
-            return "PATH is not prefix/name+hash"
+        # (PATH / url() are printed for the replay; their shape is not part of the property)
         return None if remote == direct else "remote call result differs from the direct call (%s)" % OPT_NAMES[fn]
     if op == 31:
         w = case[1]
@@ -1128,6 +1164,27 @@ def oracle_audit(case, impl):
             return None if remote == direct else "remote stream through the axum backend differs from the direct call (re-chunk %r)" % (case[3],)
         if w == 6:
             return oracle_typed([12, case[2], case[3]], impl)
+        if w == 8:
+            import urllib.parse as U
+            status, back, direct, loc = impl
+            s, n, pre, q, f = bytes(case[2]), case[3], case[4], case[5], case[6]
+            if status != 302 or not loc:
+                return "HTML form request was not redirected"
+            target = bytes(loc[0]).decode()
+            if not target.startswith(bytes(pre).decode()):
+                return "redirect target is not the referer URL"
+            rest = target[len(bytes(pre)):].split("#", 1)[0]
+            pairs = U.parse_qsl(rest[1:] if rest.startswith("?") else rest, keep_blank_values=True, errors="replace")
+            before = U.parse_qsl(bytes(q[0]).decode(), keep_blank_values=True, errors="replace") if q else []
+            if s.startswith(b"!"):
+                want = [1, u64(n), list(s)]
+                if direct != [1, want]:
+                    return "harness: direct call differs from the reference body"
+                if back != [[list(b"/api/ax_mw")], [want]]:
+                    return "the (Cbor-encoded) error embedded in the redirect URL is not the error the body returned"
+                return None
+            keep = [(k, v) for (k, v) in before if k not in ("__err", "__path")]
+            return None if pairs == keep else "stale error info not stripped from the referer (or other pairs changed)"
         if w == 7:
             paths, status = impl
             if sorted(bytes(p).decode() for p in paths) != AX_PATHS:
@@ -1339,6 +1396,9 @@ def valid_audit(c):
             return len(c) == 4 and rc_ok(c[3]) and all(_valid_segs(ch, w == 4) for ch in c[2])
         if w == 6:
             return len(c) == 5 and _is_opt(c[2], _is_header) and _is_bytes(c[3]) and rc_ok(c[4])
+        if w == 8:
+            return (len(c) == 7 and _is_text(c[2]) and b"deny" not in bytes(c[2]) and isinstance(c[3], int) and 0 <= c[3] < 2 ** 32
+                    and valid_case(dict(case=[6, c[4], c[5], c[6]])))
         return w == 7 and len(c) == 3 and _is_text(c[2]) and all(chr(x).isalnum() or x == 95 for x in c[2])
     if op == 32:
         if not (len(c) == 5 and isinstance(c[4], list) and len(c[4]) == 2 and all(x in RECHUNK_SIZES for x in c[4])):
@@ -1393,6 +1453,10 @@ def describe_audit(case):
         if w in (4, 5):
             return "%s(chunks %r) cut at %r on the axum backend: remote vs direct" % (
                 ["ax_echo_text", "ax_emit_bytes"][w - 4], [[(n, C.bs(u)) for (n, u) in ch] for ch in case[2]], case[3])
+        if w == 8:
+            return "browser form GET ax_mw(%r, %d) with Accept: text/html, Referer %r: the redirect URL must carry the body's (Cbor-encoded) error" % (
+                C.show_bytes(case[2]), case[3],
+                C.show_bytes(case[4]) + ("?" + C.show_bytes(case[5][0]) if case[5] else "") + ("#" + C.show_bytes(case[6][0]) if case[6] else ""))
         if w == 6:
             return "POST ax_upload Content-Type=%r body=%r cut at %r" % ([C.bs(x) for x in case[2]], C.bs(case[3]), case[4])
         return "server_fn::axum::server_fn_paths() and handle_server_fn on the unknown route /api/%s" % C.show_bytes(case[2])
@@ -1679,6 +1743,10 @@ def oracle_typed(case, impl):
         return None if impl and impl[0] in (0, 1) else "unexpected observation for a corrupted call"
     if op == 12:
         status, body = impl
+        if case[1] == [list(MP_CTS[0])] and bytes(case[2]) == MP_OK_BODY:
+            # the intact upload: the body's result (field names and sizes) must come back
+            return None if (status == 200 and bytes(body) == b'[["a",5],["f",2]]') else \
+                "a well-formed multipart request was not decoded into its fields"
         if 400 <= status <= 599:
             try:
                 t = bytes(body).decode()
@@ -1997,6 +2065,8 @@ def valid_case(item):
         if op == 12:
             return len(c) == 3 and _is_opt(c[1], _is_header) and _is_bytes(c[2])
         if op in (13, 14, 15, 17):
+            if len(c) == 4 and op == 13 and c[3] in (0, 1, 2):
+                c = c[:3]
             if len(c) != 3 or not (isinstance(c[2], list) and len(c[2]) == 2 and all(x in RECHUNK_SIZES for x in c[2])):
                 return False
             for ch in c[1]:
